@@ -21,6 +21,6 @@ def run(tier, seed):
         "Mixed. Deductive: html_block returns True only under a truthy options.html (POST needs-html-option); language-inclusion obligations (LANG) "
         "for escapeHtml and the renderer functions when the language back end is present in this run. Bounded: output monitor "
         "render(x) in Safe and properly nested, html off, over the line and inline universes.")
-    rep.trusted_base = STD_TRUST
-    rep.assumptions = ["'balanced tokens + per-token languages => nested HTML' is a composition step (not machine-checked)"]
+    rep.trusted_base += STD_TRUST
+    rep.assumptions += ["'balanced tokens + per-token languages => nested HTML' is a composition step (not machine-checked)"]
     return rep
